@@ -3,8 +3,8 @@
 # Confirms in a scratch worktree (outside /repo and /verif): patch applies, crate builds, the existing
 # suite passes with it, the demo fails with it and passes without it. Prints a one-line verdict.
 d="$1"; feat="${2:-}"
-WT=/tmp/wt/verify
-export CARGO_NET_OFFLINE=true CARGO_TARGET_DIR=/tmp/wt/verify-target
+WT=${VERIFY_WT:-/tmp/wt/verify}
+export CARGO_NET_OFFLINE=true CARGO_TARGET_DIR=${VERIFY_WT:-/tmp/wt/verify}-target
 if [ ! -d "$WT" ]; then git -C /repo worktree add --detach "$WT" HEAD -q || exit 2; fi
 cd "$WT" || exit 2
 git checkout -q --detach "$(git -C /repo rev-parse HEAD)" 2>/dev/null
